@@ -265,6 +265,11 @@ class Check(PropertyCheck):
                                     f"modified the lists it had passed: {v3[:160]} vs {v1[:160]}"))
             if line == "taillard" and (back.name != "verif_inst" or back.metadata != {"key": "value"}):
                 res.append(("roundtrip:taillard", f"name/metadata after Taillard load: {back.name!r} {back.metadata!r}"))
+            if line == "taillard" and getattr(impl, "taillard_named", None):
+                given, got, meta, got_meta, same_ops = impl.taillard_named
+                if got != given or got_meta != meta or not same_ops:
+                    res.append(("roundtrip:taillard", f"from_taillard_file(path, name={given!r}, **{meta!r}) gave name {got!r}, metadata "
+                                f"{got_meta!r}, same operations: {same_ops}"))
         elif line == "rebuild":
             d = impl.dispatcher
             if d.schedule.is_complete():
